@@ -1430,7 +1430,14 @@ class PyWrapper(ColumnOperators):
         rolled_down_value = AnalyzedCode._roll_down_to_literal(value)
 
         if coercions._deep_is_literal(rolled_down_value):
-            wrapper = PyWrapper(self._sa_fn, key, value, getter=getter)
+            # the name becomes the name of a BindParameter: it has to be a
+            # string also for list indexes / non-string dictionary keys
+            name = (
+                key
+                if isinstance(key, str)
+                else f"{self._sa__name}_item_{key}"
+            )
+            wrapper = PyWrapper(self._sa_fn, name, value, getter=getter)
             bind_paths[bind_path_key] = wrapper
             return wrapper
         else:
